@@ -892,8 +892,12 @@ def premise_entry(ctx, rule="E", sizes=((FIVE, 5), (SIX, 6), (SEVEN, 7)), gate_t
             # ... for every hand, not only the placeholder: with is_valid() true the result is the unvalidated value
             # itself (the same node), with is_valid() false it is the constant 0
             vcalls = [x for x in walk(r) if x[0] == "call" and x[1] == "fn:" + k_valid]
-            r_t = substitute(r, lambda nd: TRUE if (nd[0] == "call" and nd[1] == "fn:" + k_valid) else None)
-            r_f = substitute(r, lambda nd: FALSE if (nd[0] == "call" and nd[1] == "fn:" + k_valid) else None)
+            # (the value where no panic site fired: asserted conditions are taken as true here — whether they can fail is
+            # the no-panic rules' question)
+            asserted_ = {id(o.cond) for o in sm.obligations if o.cond[0] != "c"}
+            r_na = substitute(r, lambda nd: TRUE if id(nd) in asserted_ else None) if asserted_ else r
+            r_t = substitute(r_na, lambda nd: TRUE if (nd[0] == "call" and nd[1] == "fn:" + k_valid) else None)
+            r_f = substitute(r_na, lambda nd: FALSE if (nd[0] == "call" and nd[1] == "fn:" + k_valid) else None)
             rep.ob(rule + ".validity-gate-exact", short(path), r_t is ref and r_f[0] == "c" and r_f[1] == 0,
                    "hand_rank_value_validated is not `if is_valid() { hand_rank_value() } else { 0 }` of the same hand for every hand (it differs on some hands the sample does not show)", pdb.where(k_g))
             # the calls must be on the same hand
@@ -2782,7 +2786,7 @@ def check_C04(ctx):
             bodies.append((kvv, styv, ctx.hand(path, n), opq))
             krv, styr = ctx.method(path, "hand_rank_validated", HR)
             bodies.append((krv, styr, ctx.hand(path, n), opq | {kvv}))
-        bodies.append(("evaluate::five_cards", None, agg(("array",), slot_atoms(5)), {ctx.method(FIVE, "hand_rank_value_validated", HR)[0], ctx.method(FIVE, "is_valid", HV)[0],
+        bodies.append(("evaluate::five_cards", None, agg(("array",), slot_atoms(5)), {ctx.method(FIVE, "is_valid", HV)[0],
                                                                                       ctx.method(FIVE, "hand_rank_value_and_hand", HR)[0], ctx.method(FIVE, "hand_rank_value", HR)[0]}))
         for key_, sty_, arg_, opq in bodies:
             sm_ = ctx.summ(key_, [("r" if sty_ is not None or key_ != "evaluate::five_cards" else "v", arg_)], sty_, opaque=opq)
@@ -2796,7 +2800,20 @@ def check_C04(ctx):
                 elif dec_ is False:
                     rep.ob("V.no-panic", label, False, "panic site (%s, line %s) in %s is reached and fails for %s" % (o.kind, o.line, short(o.fn), describe_env(how_) if how_ else "every hand"), pdb.where(o.fn))
                 else:
-                    rep.uncertified("V.no-panic", "panic site %s of a validated entry point could not be decided for arbitrary words" % label, pdb.where(o.fn))
+                    # behind the gate the hand is made of distinct real cards: slot-wise over the 52 words
+                    ok2 = False
+                    try:
+                        if key_ != "evaluate::five_cards":
+                            sm_in_ = ctx.summ(key_, [("r", arg_)], sty_, opaque={k_ for k_ in opq if "is_valid" not in k_})
+                            twin = next((q for q in sm_in_.obligations if (q.fn, q.kind, q.line) == (o.fn, o.kind, o.line)), None)
+                            if twin is not None:
+                                ok2 = slotwise_discharge(ctx, twin, None, masks_upto(5), valid_only=True)
+                    except Uncertified:
+                        ok2 = False
+                    if ok2:
+                        rep.ob("V.no-panic", label, True)
+                    else:
+                        rep.uncertified("V.no-panic", "panic site %s of a validated entry point could not be decided for arbitrary words" % label, pdb.where(o.fn))
     ctx.guard("V.no-panic", nopanic)
     # on the valid edge the hand is made of distinct real cards: ranking returns (and is non-zero) by C01's premises
     tabs = ctx.guard("T", premise_tables, ctx, "T", "lengths")
